@@ -48,7 +48,7 @@ func GetJsonDataType(t dsl.Type) JsonDataType {
 	switch td := scalarType.ResolvedDefinition.(type) {
 	case dsl.PrimitiveDefinition:
 		switch td {
-		case dsl.String:
+		case dsl.String, dsl.Date, dsl.Time, dsl.DateTime:
 			return JsonString
 		case dsl.Int8, dsl.Int16, dsl.Int32, dsl.Int64, dsl.Uint8, dsl.Uint16, dsl.Uint32, dsl.Uint64, dsl.Size, dsl.Float32, dsl.Float64:
 			return JsonNumber
@@ -56,8 +56,6 @@ func GetJsonDataType(t dsl.Type) JsonDataType {
 			return JsonBoolean
 		case dsl.ComplexFloat32, dsl.ComplexFloat64:
 			return JsonArray
-		case dsl.Date, dsl.Time, dsl.DateTime:
-			return JsonNumber
 		default:
 			panic(fmt.Sprintf("unexpected primitive type %s", td))
 		}
